@@ -425,6 +425,12 @@ func dischargeAll(workDir string, fx *FuncCtx, probes []string, timeoutMs, worke
 	var wg sync.WaitGroup
 	stringsTheory := fx.u.strings
 	for i, ob := range fx.obls {
+		if fx.ct != nil && len(fx.ct.Props) == 0 && len(ob.Tags) == 0 && !ob.Cover {
+			// a function without a props line is under contract only for its tagged clauses:
+			// its untagged safety/frame obligations belong to no property and are not attempted
+			results[i] = &Result{Ob: ob, Status: "undecided", Solver: "not attempted (no property claims this obligation)"}
+			continue
+		}
 		wg.Add(1)
 		i, ob := i, ob
 		sem <- struct{}{}
